@@ -116,6 +116,10 @@ def _copy_new_nsmap(tree, nsm):
     new_tree = etree.Element(tree.tag, nsmap=nsm)
     new_tree.attrib.update(tree.attrib)
     new_tree[:] = tree[:]
+    if next(new_tree.iter(etree.Entity), None) is not None:
+        # unresolved entity references still point into the DTD of the document
+        # they were parsed in; copying re-binds them to the new document
+        new_tree = copy.deepcopy(new_tree)
     return new_tree
 
 
